@@ -174,7 +174,7 @@ CHECKS = {
              'sets incl. the (a|b) alternations of extra letters, matcher proved sound and complete); for every set of extra '
              'letters and every renderable pattern the rendered text - escaped or not, padded, with capture groups - parses '
              'and the model\'s reading accepts every string the pattern matches fragment by fragment '
-             '(C03_rendered_text_matches), so each working example is matched by one of the batch\'s expressions as text '
+             '(C03_rendered_text_matches; and only those: C03_rendered_text_exact), so each working example is matched by one of the batch\'s expressions as text '
              '(C03_batch_text_covers); the model\'s reading is compared with CPython re on every evaluated (expression, string) '
              'pair. The extracted model replays every real run '
              'from its recorded oracle tables (group splits, re.match results, random.sample choices) and must return exactly '
@@ -196,12 +196,12 @@ CHECKS = {
              'depend on the tag option and a tagged fragment is the untagged one inside one capturing group; each refined pattern '
              'matches one of the working examples fragment by fragment (C13_each_matches_some) and as TEXT, for every set of '
              'extra letters: every expression of a batch parses in the modelled syntax (Rexpy/Regex.v) and the model\'s '
-             'reading of it accepts one of the working examples (C13_text_each_matches_some). The extracted '
+             'reading of it accepts one of the working examples (C13_text_each_matches_some); the tagged and untagged texts '
+             'of a pattern accept the same strings (C13_tag_same_language). The extracted '
              'model replays every real run (exact expressions); each returned expression is compiled, checked for anchoring, '
              'for matching an example, for duplicates and count; every run is repeated with tagging flipped and both '
              'results are compared on the examples and near-miss probes.',
-        note='partial: "no expression twice" and the language equality of tagged and untagged expressions are decided by the '
-             'run-time oracle and the replay, not by a theorem; that CPython re reads the text as Regex.v does is validated by '
+        note='partial: "no expression twice" is decided by the run-time oracle and the replay, not by a theorem; that CPython re reads the text as Regex.v does is validated by '
              'correspondence on every evaluated pair, not proved.',
         technique='Coq proof (shape/count/tagging/matches-an-example theorems over the Extractor and regex-text models) + extracted-model replay + regex-model correspondence with CPython re + expression oracle',
         design='7 C13'),
